@@ -110,6 +110,9 @@ def instrumented(seed_base=1234, round_state=True):
         mc.vmc_worker, dmc.dmc_propagate, mc.vmc_file, dmc.dmc_file, linemin.opt_hdf = o_worker, o_prop, o_vfile, o_dfile, o_opt
 
 
+DMC_EXTRA = {}  # further keyword arguments for rundmc (e.g. feedback != 1), set by the caller around a scenario
+
+
 def run_driver(kind, fname, nblocks, periodic=False, continue_from=None, seed=11, nconf=5, nelec=2, configs=None):
     """one call of the real driver; returns (df, configs[, weights])"""
     import pyqmc.method.mc as mc
@@ -124,7 +127,7 @@ def run_driver(kind, fname, nblocks, periodic=False, continue_from=None, seed=11
     if kind == "dmc":
         np.random.seed(99)  # the VMC warm-up / initial energy of a fresh run
         return dmc.rundmc(wf, cfg, tstep=0.05, nblocks=nblocks, nsteps_per_block=2, accumulators={"energy": TagAcc()}, hdf_file=fname,
-                          continue_from=continue_from, vmc_warmup=2, branchcut_start=3) + (wf,)
+                          continue_from=continue_from, vmc_warmup=2, branchcut_start=3, **DMC_EXTRA) + (wf,)
     if kind == "opt":
         acc = StochasticReconfiguration(TagAcc(), LinearTransform(wf.parameters), eps=0.1)
         np.random.seed(98)
